@@ -7,6 +7,7 @@ package c14
 
 import (
 	"context"
+	"encoding/json"
 	"fmt"
 	"io"
 	"log"
@@ -25,10 +26,37 @@ const RecorderSpec = `{"name":"recorder","nodes":{
  "rec":{"action":{"interpreter":"ecmascript","source":"var bs = _.bindings; var m = bs['?m']; delete bs['?m']; var id = (m !== null && typeof m === 'object' && m.uid !== undefined) ? m.uid : JSON.stringify(m); bs.log = (bs.log || []).concat([id]); if (m !== null && typeof m === 'object' && m.emit) { for (var i = 0; i < m.emit.length; i++) { var e = JSON.parse(JSON.stringify(m.emit[i])); if (e !== null && typeof e === 'object') { e.from = _.props.mid; } _.out(e); } } return bs;"},
         "branching":{"branches":[{"target":"start"}]}}}}`
 
+// recorderDoc is RecorderSpec as a JSON value (for crew operations that hire a recorder).
+var recorderDoc = func() interface{} {
+	var x interface{}
+	if err := json.Unmarshal([]byte(RecorderSpec), &x); err != nil {
+		panic(err)
+	}
+	return x
+}()
+
+// hirePool: ids a crew operation may create, replace or delete while a history runs.
+var hirePool = []string{"m1", "m2", "m3", "m4", "h1", "h2", "captain2", "timer", "all"}
+
 type genCtx struct {
 	r    *rand.Rand
 	mids []string
 	n    int
+	dyn  bool // crew operations that change the membership
+}
+
+// hire is a crew operation, addressed to the captain, that creates (or replaces) recorder id.
+func (g *genCtx) hire(id string) map[string]interface{} {
+	return map[string]interface{}{"uid": g.uid(), "to": "captain", "update": map[string]interface{}{
+		id: map[string]interface{}{"spec": map[string]interface{}{"inline": fw.Plain(recorderDoc)}, "state": map[string]interface{}{"node": "start", "bs": map[string]interface{}{}}}}}
+}
+
+func (g *genCtx) fire(ids ...string) map[string]interface{} {
+	l := []interface{}{}
+	for _, id := range ids {
+		l = append(l, id)
+	}
+	return map[string]interface{}{"uid": g.uid(), "to": "captain", "delete": l}
 }
 
 func (g *genCtx) uid() string { g.n++; return fmt.Sprintf("u%d", g.n) }
@@ -38,6 +66,9 @@ func (g *genCtx) uid() string { g.n++; return fmt.Sprintf("u%d", g.n) }
 func (g *genCtx) target() (to interface{}, has bool) {
 	r := g.r
 	pick := func() string {
+		if g.dyn && r.Intn(3) == 0 {
+			return hirePool[r.Intn(len(hirePool))]
+		}
 		if len(g.mids) == 0 || r.Intn(5) == 0 {
 			return []string{"ghost", "nobody"}[r.Intn(2)]
 		}
@@ -77,6 +108,43 @@ func (g *genCtx) message(depth int) map[string]interface{} {
 			em = append(em, g.message(depth-1))
 		}
 		m["emit"] = em
+	}
+	if g.dyn {
+		switch g.r.Intn(14) {
+		case 0:
+			keep := m["emit"]
+			m = g.hire(hirePool[g.r.Intn(len(hirePool))])
+			if keep != nil && g.r.Intn(2) == 0 {
+				m["emit"] = keep // not addressed to a recorder: never emitted
+			}
+			return m
+		case 1:
+			return g.fire(hirePool[g.r.Intn(len(hirePool))], hirePool[g.r.Intn(len(hirePool))])
+		case 2, 3:
+			if depth > 0 {
+				// hire somebody and talk to them straight away
+				id := hirePool[g.r.Intn(len(hirePool))]
+				em := []interface{}{g.hire(id)}
+				first := g.message(depth - 1)
+				first["to"] = id
+				em = append(em, first)
+				if g.r.Intn(2) == 0 {
+					second := g.message(depth - 1)
+					second["to"] = []interface{}{id, "ghost"}
+					em = append(em, second)
+				}
+				if g.r.Intn(3) == 0 {
+					em = append(em, g.fire(id))
+					last := g.message(0)
+					last["to"] = id
+					em = append(em, last)
+				}
+				if g.r.Intn(2) == 0 {
+					em[0], em[1] = em[1], em[0] // talk first, hire afterwards
+				}
+				m["emit"] = em
+			}
+		}
 	}
 	// hostile payloads: if a service machine were presented with this message it would act on it
 	switch g.r.Intn(8) {
@@ -210,7 +278,17 @@ func sioHistory(cfg fw.Config, rec *fw.Rec, i int) {
 		ordinary[mid] = true
 	}
 	service := map[string]bool{"captain": true, "timers": true}
-	g := &genCtx{r: r, mids: mids}
+	known := map[string]bool{}
+	for _, mid := range mids {
+		known[mid] = true
+	}
+	hiredAt := map[string]bool{} // not in the crew at the start
+	for _, id := range hirePool {
+		if !ordinary[id] {
+			hiredAt[id] = true
+		}
+	}
+	g := &genCtx{r: r, mids: mids, dyn: i%2 == 1}
 	var history []interface{}
 	expectLog := map[string][]string{}
 	expectedSentinels := map[string]bool{}
@@ -251,8 +329,27 @@ func sioHistory(cfg fw.Config, rec *fw.Rec, i int) {
 					// addressed to a service machine: it may act on the payload
 					if xm, ok := x.(map[string]interface{}); ok {
 						if up, ok := xm["update"].(map[string]interface{}); ok && rc == "captain" {
-							for mid := range up {
+							for mid, v := range up {
+								if vm, ok := v.(map[string]interface{}); ok && vm["spec"] != nil {
+									// a recorder is hired (or replaced: it starts afresh)
+									ordinary[mid] = true
+									known[mid] = true
+									delete(expectLog, mid)
+									rec.Bucket("sio_machine_hired_during_processing")
+									continue
+								}
 								expectedSentinels[mid] = true
+							}
+						}
+						if del, ok := xm["delete"].([]interface{}); ok && rc == "captain" {
+							for _, d := range del {
+								if id, ok := d.(string); ok {
+									if ordinary[id] {
+										rec.Bucket("sio_machine_fired_during_processing")
+									}
+									delete(ordinary, id)
+									delete(expectLog, id)
+								}
 							}
 						}
 						if mt, ok := xm["makeTimer"].(map[string]interface{}); ok && rc == "timers" {
@@ -262,6 +359,9 @@ func sioHistory(cfg fw.Config, rec *fw.Rec, i int) {
 					continue
 				}
 				expectLog[rc] = append(expectLog[rc], uidOf(x))
+				if hiredAt[rc] {
+					rec.Bucket("sio_delivery_to_machine_hired_in_this_history")
+				}
 				if b := expectedBatch(x, rc); b != nil {
 					want[fw.Canon(b)]++
 					nb++
@@ -291,7 +391,16 @@ func sioHistory(cfg fw.Config, rec *fw.Rec, i int) {
 			rec.Violation("C14:sio:extra-emission-reported", fmt.Sprintf("%d emission batch(es) reported beyond what the addressed machines emit (a message was delivered more than once, or to a machine it was not addressed to)", len(res.Emitted)-bi), replay)
 			return
 		}
-		for _, mid := range mids {
+		var all []string
+		for mid := range known {
+			all = append(all, mid)
+		}
+		sort.Strings(all)
+		for _, mid := range all {
+			if _, have := c.Machines[mid]; have != ordinary[mid] {
+				rec.Violation("C14:sio:membership-differs", fmt.Sprintf("machine %q: in the crew = %v, according to the crew operations addressed to the captain = %v", mid, have, ordinary[mid]), replay)
+				return
+			}
 			got := logOf(c, mid)
 			if fw.Canon(got) != fw.Canon(expectLog[mid]) {
 				cls := "log-differs"
@@ -345,8 +454,8 @@ func sioHistory(cfg fw.Config, rec *fw.Rec, i int) {
 
 func Run(cfg fw.Config, rec *fw.Rec) {
 	log.SetOutput(io.Discard)
-	rec.Rule = "crews of 0-6 recorder machines (ids incl. look-alikes of service names and the empty id) x histories of 1-5 submitted messages whose 'emit' fields script up to 3 generations of routed and unrouted follow-ups; targets: absent, an id, an unknown id, '*', lists with unknown / repeated / non-string members, the empty list, captain / timers; some messages carry crew-op or timer-request payloads that a wrongly addressed service machine would act on; the routing reference model replays Result.Emitted (breadth-first, per-machine emission order, every batch consumed exactly) and predicts every machine's log as a sequence; non-trivial = history with >= 2 deliveries; distinct by (machines, history)"
-	rec.Required = []string{"sio_messages_checked", "sio_histories_with_deliveries", "sio_empty_crew"}
+	rec.Rule = "crews of 0-6 recorder machines (ids incl. look-alikes of service names and the empty id) x histories of 1-5 submitted messages whose 'emit' fields script up to 3 generations of routed and unrouted follow-ups; targets: absent, an id, an unknown id, '*', lists with unknown / repeated / non-string members, the empty list, captain / timers; some messages carry crew-op or timer-request payloads that a wrongly addressed service machine would act on; in every second history crew operations addressed to the captain - submitted or emitted by recorders - hire, replace and fire recorders while messages to them are in flight (hire-then-talk, talk-then-hire, hire-talk-fire-talk within one emission batch), and the model's membership changes at the point of the breadth-first order where the captain is presented with the operation; the routing reference model replays Result.Emitted (breadth-first, per-machine emission order, every batch consumed exactly) and predicts every machine's log as a sequence; non-trivial = history with >= 2 deliveries; distinct by (machines, history)"
+	rec.Required = []string{"sio_messages_checked", "sio_histories_with_deliveries", "sio_empty_crew", "sio_machine_hired_during_processing", "sio_machine_fired_during_processing", "sio_delivery_to_machine_hired_in_this_history"}
 	rec.Assume = []string{"numbers / objects as routing targets are defined by neither code nor documentation and are recorded, not judged", "machine order within a round is unspecified: batches of one round are matched as a multiset and re-queued in the observed order"}
 	n := cfg.Pick(3000, 50000)
 	fw.Parallel(cfg.Workers, n, func(w, i int) { sioHistory(cfg, rec, i) })
